@@ -31,7 +31,9 @@ WITH THE SOFTWARE OR THE USE OR OTHER DEALINGS IN THE SOFTWARE.
 #include <logics/LogicFactory.h>
 #include <rewriters/Substitutor.h>
 
+#include <algorithm>
 #include <string>
+#include <utility>
 #include <sstream>
 #include <cstdarg>
 #include <unistd.h>
@@ -538,11 +540,14 @@ PTRef Interpret::parseTerm(const ASTNode& term, LetRecords& letRecords) {
             ASTNode& sym = **(name_attr.children->begin());
             assert(sym.getType() == SYM_T or sym.getType() == QSYM_T);
             char const * str = sym.getValue();
-            bool const success = main_solver->tryAddTermNameFor(tr, str);
-            if (not success) {
+            bool const taken = std::as_const(*main_solver).getTermNames().contains(str) or
+                               std::any_of(pendingTermNames.begin(), pendingTermNames.end(),
+                                           [&](auto const & entry) { return entry.first == str; });
+            if (taken) {
                 notify_formatted(true, "name %s already exists", str);
                 return PTRef_Undef;
             }
+            pendingTermNames.emplace_back(str, tr);
         }
         return tr;
     }
@@ -1063,6 +1068,7 @@ void Interpret::notify_formatted(bool error, const char* fmt_str, ...) const {
     if (error) {
         std::cout << "(error \"";
         _okStatus = false;
+        ++errorCount;
         // also set `f_exit = true` if configured to stop on first error
     }
 
@@ -1103,7 +1109,16 @@ void Interpret::notify_success() const {
 void Interpret::execute(const ASTNode* r) {
     auto i = r->children->begin();
     for (; i != r->children->end() && !f_exit; i++) {
+        pendingTermNames.clear();
+        unsigned const errorsBefore = errorCount;
         interp(**i);
+        // Register the names introduced by the command only if the command was accepted
+        if (errorCount == errorsBefore and main_solver) {
+            for (auto const & [name, term] : pendingTermNames) {
+                main_solver->tryAddTermNameFor(term, name);
+            }
+        }
+        pendingTermNames.clear();
         delete *i;
         *i = nullptr;
     }
